@@ -530,8 +530,9 @@ func c08One(c *vf.Ctx, sub string, i int, r *rand.Rand, k c08Cfg, ids []Ident) {
 	// ---- logical quiescence: every accepted announcement was received by the watcher, every handling
 	// goroutine that was started has exited, no request is open anywhere. (The deadline only classifies.)
 	quiet := k.EarlyClose // (Close has returned: every handling goroutine has ended)
-	deadline := time.Now().Add(90 * time.Second)
-	for !quiet && time.Now().Before(deadline) {
+	// (the condition is evaluated on one snapshot of the counters and must hold on two snapshots a moment apart with
+	// nothing logged in between; the deadline runs from the last progress seen, so a slow machine is not "stuck")
+	isQuiet := func() (bool, int) {
 		amu.Lock()
 		a := announced
 		amu.Unlock()
@@ -539,15 +540,27 @@ func c08One(c *vf.Ctx, sub string, i int, r *rand.Rand, k c08Cfg, ids []Ident) {
 		for _, p := range pubs {
 			open += p.front.OpenRequests()
 		}
-		// (every received announcement must also have been put into the pending slot: the watcher may be
-		// anywhere between receiving and swapping)
-		if tl.count("watch.recv") == a && tl.count("watch.swap.spawn")+tl.count("watch.swap.replaced") == a &&
-			tl.count("async.enter") == tl.count("async.exit") && tl.count("watch.swap.spawn") == tl.count("async.enter") && open == 0 &&
-			tl.count("event.emit.begin") == tl.count("event.emit.end") && tl.count("dist.forward") == tl.count("event.emit.end") {
-			// (the last condition: every notification sent has been taken up by the distributor, so the harness's own
-			// listener, cancelled below, has them all queued)
-			quiet = true
-			break
+		n, total := tl.snapshot()
+		// (every received announcement must also have been put into the pending slot: the watcher may be anywhere
+		// between receiving and swapping; every notification sent has been taken up by the distributor, so the
+		// harness's own listener, cancelled below, has them all queued)
+		return n["watch.recv"] == a && n["watch.swap.spawn"]+n["watch.swap.replaced"] == a &&
+			n["async.enter"] == n["async.exit"] && n["watch.swap.spawn"] == n["async.enter"] && open == 0 &&
+			n["event.emit.begin"] == n["event.emit.end"] && n["dist.forward"] == n["event.emit.end"], total
+	}
+	lastTotal, lastProgress := -1, time.Now()
+	for !quiet && time.Since(lastProgress) < 90*time.Second {
+		ok, total := isQuiet()
+		if total != lastTotal {
+			lastTotal, lastProgress = total, time.Now()
+		}
+		if ok {
+			time.Sleep(time.Millisecond)
+			if ok2, total2 := isQuiet(); ok2 && total2 == total {
+				quiet = true
+				break
+			}
+			continue
 		}
 		time.Sleep(500 * time.Microsecond)
 	}
